@@ -5,6 +5,6 @@ LEAN_MODULES = _auto.lean_modules("C03")
 VARIANTS = ['default']
 RULE = 'all (variant, rounds, key length) x start blocks {0,1,2^32-2,2^32-1,random} (seek / counter hooks, incl. 64-bit counters next to 2^32-1 and 2^64-1) x lengths {0,1,63,64,65,127,128,129,300}; engine-level ops on the portable and native engines; non-trivial = non-empty data; distinct = distinct case lines'
 TRUSTED = ["hand-written Lean models (lean/CxVerif/Impl, Spec) tied to the code by the correspondence run and by tables re-extracted from /repo/src"]
-ASSUMPTIONS = []
+ASSUMPTIONS = ["X-variants take &[u8; 32] keys by type; 64-bit counters beyond the public API's reach are exercised through the hook verif_set_counter64"]
 gen = _auto.make_gen("C03")
 nontrivial = _auto.default_nontrivial
